@@ -181,7 +181,7 @@ func C02Scenario() *Scenario {
 		_ = checked
 		w.Stages = []Stage{
 			{Name: "chaos", Policy: pol, Steps: 200 + 100*t.Pick(3, "len")},
-			{Name: "drain", Quiet: true, MaxSteps: 3000, Do: func(w *World) { b.Left = 0 }, Check: check},
+			{Name: "drain", Quiet: true, CheckOnBudget: true, MaxSteps: 3000, Do: func(w *World) { b.Left = 0 }, Check: check},
 		}
 	}}
 }
